@@ -3,6 +3,7 @@ package main
 import (
 	"errors"
 
+	"git.torproject.org/pluggable-transports/snowflake.git/v2/common/bridgefingerprint"
 	"git.torproject.org/pluggable-transports/snowflake.git/v2/common/ipsetsink/sinkcluster"
 	"git.torproject.org/pluggable-transports/snowflake.git/v2/common/messages"
 	"git.torproject.org/pluggable-transports/snowflake.git/v2/internal/verifapi"
@@ -62,5 +63,46 @@ func VerifC19_JournalFeed() {
 	verifapi.Assert(len(verifFed) == len(want), "every poll with a usable remote address is fed to the distinct-IP journal, repeated addresses included")
 	for k := range want {
 		verifapi.Assert(verifFed[k] == want[k], "the journal is fed the poll's own address")
+	}
+}
+
+// ---- C02: an offer whose bridge is not (or no longer) in the list is never handed to a proxy -----
+//
+// The list may be reloaded while a client waits; the proxy-side lookup is the last line of
+// defence: without a configured relay URL for the offer's bridge the poll fails, it does not
+// answer "client match" with an empty or stale URL.
+
+var verifOfferFP []byte
+
+func verifRequestOfferWith(ctx *BrokerContext, id string, proxyType string, natType string, clients int) *ClientOffer {
+	return &ClientOffer{natType: "unknown", sdp: []byte("offer"), fingerprint: verifOfferFP}
+}
+
+var verifEncodedMatch, verifEncodedRelay = false, ""
+
+func verifEncodePollResponseRelayRec(offer string, success bool, natType, relayURL, failReason string) ([]byte, error) {
+	verifEncodedMatch, verifEncodedRelay = success, relayURL
+	return []byte("resp"), nil
+}
+
+func VerifC02_PollUnknownBridge() {
+	ctx := verifNewContext()
+	i := &IPC{ctx}
+	verifProxyNAT[0] = "unrestricted"
+	known := verifapi.Bool("the offer's bridge is in the list")
+	fpHex := verifFPAbsent
+	if known {
+		fpHex = verifFP2
+	}
+	fp, _ := bridgefingerprint.FingerprintFromHexString(fpHex)
+	verifOfferFP = fp.ToBytes()
+	var resp []byte
+	err := i.ProxyPolls(messages.Arg{Body: []byte{0}, RemoteAddr: ""}, &resp)
+	if known {
+		verifapi.Cover("offer for a listed bridge")
+		verifapi.Assert(err == nil && verifEncodedMatch && verifEncodedRelay == verifURL2, "C02: the proxy is given the relay URL configured for the offer's bridge")
+	} else {
+		verifapi.Cover("offer for an unlisted bridge")
+		verifapi.Assert(err != nil || !verifEncodedMatch, "C02: an offer whose bridge is not in the list is never handed to a proxy as a match")
 	}
 }
